@@ -1,0 +1,201 @@
+//go:build verif
+
+// Contracts for govc (contract-based deductive verification, see /verif/DESIGN.md).
+// This file contains comments only; it is compiled only with -tags=verif and adds no code.
+
+package scanner
+
+//@ package scanner
+//@
+//@ # C09 (termination of gocc's own scanner): what is left to read, counting the look-ahead character;
+//@ # next() strictly decreases it unless the end of the input has already been seen (ch < 0)
+//@ spec left(S *Scanner) int = len(S.src) - S.offset + ite(S.ch >= 0, 1, 0)
+//@ # the look-ahead character occupies the bytes from S.pos.Offset up to S.offset; after the end of the input ch is negative
+//@ spec scanWF(S *Scanner) bool = S != nil && 0 <= S.pos.Offset && S.pos.Offset <= S.offset && S.offset <= len(S.src) && imp(S.ch < 0, S.offset == len(S.src)) && imp(S.ch >= 0, S.pos.Offset < S.offset)
+//@ # what every scanning step guarantees: the shape is kept, nothing is un-read, the position only moves forward
+//@ spec scanStep(S *Scanner, left0 int, pos0 int) bool = scanWF(S) && left(S) <= left0 && S.pos.Offset >= pos0
+//@
+//@ func (*Scanner).error
+//@   prop C09
+//@   requires [S] S != nil
+//@   assigns S.ErrorCount
+//@
+//@ func (*Scanner).next
+//@   prop C09
+//@   # (Init calls next with a stale look-ahead character: only the offset has to be in range)
+//@   requires [offset] S != nil && 0 <= S.offset && S.offset <= len(S.src)
+//@   ensures [wf] scanWF(S)
+//@   ensures [progress] imp(old(scanWF(S)) && old(S.ch) >= 0, left(S) < old(left(S)))
+//@   ensures [eof-sticky] imp(old(scanWF(S)) && old(S.ch) < 0, S.ch < 0 && S.offset == old(S.offset))
+//@   ensures [no-growth] imp(old(scanWF(S)), left(S) <= old(left(S)) && S.pos.Offset >= old(S.pos.Offset))
+//@   ensures [pos] S.pos.Offset == ite(old(S.offset) < len(S.src), old(S.offset), len(S.src))
+//@   ensures [src] S.src == old(S.src)
+//@   assigns S.pos, S.offset, S.ch, S.ErrorCount
+//@
+//@ func (*Scanner).expect
+//@   prop C09
+//@   requires [wf] scanWF(S)
+//@   ensures [wf] scanStep(S, old(left(S)), old(S.pos.Offset))
+//@   assigns S.pos, S.offset, S.ch, S.ErrorCount
+//@
+//@ func (*Scanner).skipWhitespace
+//@   prop C09
+//@   requires [wf] scanWF(S)
+//@   ensures [wf] scanStep(S, old(left(S)), old(S.pos.Offset))
+//@   assigns S.pos, S.offset, S.ch, S.ErrorCount
+//@   loop 1
+//@     invariant [wf] scanStep(S, old(left(S)), old(S.pos.Offset))
+//@     decreases left(S)
+//@
+//@ func (*Scanner).scanComment
+//@   prop C09
+//@   requires [wf] scanWF(S)
+//@   # pos is where the first '/' was read: one byte before the look-ahead character
+//@   requires [pos] 0 <= pos.Offset && pos.Offset + 1 <= S.pos.Offset
+//@   ensures [wf] scanStep(S, old(left(S)), old(S.pos.Offset))
+//@   assigns S.pos, S.offset, S.ch, S.ErrorCount
+//@   loop 1
+//@     invariant [wf] scanStep(S, old(left(S)), old(S.pos.Offset))
+//@     decreases left(S)
+//@   loop 2
+//@     invariant [wf] scanStep(S, old(left(S)), old(S.pos.Offset))
+//@     decreases left(S)
+//@
+//@ func (*Scanner).scanEscape
+//@   prop C09
+//@   # x accumulates the digits in a uint32 only to report an invalid code point; it may wrap around (for eight hex
+//@   # digits followed by a character that digitVal maps to 16: `d > base` lets 16 through)
+//@   wraps
+//@   requires [wf] scanWF(S)
+//@   ensures [wf] scanStep(S, old(left(S)), old(S.pos.Offset))
+//@   assigns S.pos, S.offset, S.ch, S.ErrorCount
+//@   loop 1
+//@     invariant [wf] scanStep(S, old(left(S)), old(S.pos.Offset)) && 0 <= i
+//@     decreases i
+//@
+//@ func (*Scanner).scanChar
+//@   prop C09
+//@   requires [wf] scanWF(S)
+//@   ensures [wf] scanStep(S, old(left(S)), old(S.pos.Offset))
+//@   assigns S.pos, S.offset, S.ch, S.ErrorCount
+//@   loop 1
+//@     invariant [wf] scanStep(S, old(left(S)), old(S.pos.Offset))
+//@     decreases left(S)
+//@
+//@ func (*Scanner).scanSDTLit
+//@   prop C09
+//@   requires [wf] scanWF(S)
+//@   ensures [wf] scanStep(S, old(left(S)), old(S.pos.Offset))
+//@   assigns S.pos, S.offset, S.ch, S.ErrorCount
+//@   loop 1
+//@     invariant [wf] scanStep(S, old(left(S)), old(S.pos.Offset))
+//@     decreases left(S)
+//@
+//@ func (*Scanner).scanString
+//@   prop C09
+//@   requires [wf] scanWF(S)
+//@   ensures [wf] scanStep(S, old(left(S)), old(S.pos.Offset))
+//@   assigns S.pos, S.offset, S.ch, S.ErrorCount
+//@   loop 1
+//@     invariant [wf] scanStep(S, old(left(S)), old(S.pos.Offset))
+//@     decreases left(S)
+//@
+//@ func (*Scanner).scanRawString
+//@   prop C09
+//@   requires [wf] scanWF(S)
+//@   ensures [wf] scanStep(S, old(left(S)), old(S.pos.Offset))
+//@   assigns S.pos, S.offset, S.ch, S.ErrorCount
+//@   loop 1
+//@     invariant [wf] scanStep(S, old(left(S)), old(S.pos.Offset))
+//@     decreases left(S)
+//@
+//@ func (*Scanner).scanNumber
+//@   prop C09
+//@   requires [wf] scanWF(S) && S.tokenMap != nil
+//@   ensures [wf] scanStep(S, old(left(S)), old(S.pos.Offset))
+//@   assigns S.pos, S.offset, S.ch, S.ErrorCount
+//@   loop 1
+//@     invariant [wf] scanStep(S, old(left(S)), old(S.pos.Offset))
+//@     decreases left(S)
+//@
+//@ func (*Scanner).scanIdentifier
+//@   prop C09
+//@   requires [wf] scanWF(S) && S.tokenMap != nil
+//@   requires [pos] 0 <= pos.Offset && pos.Offset <= S.pos.Offset
+//@   ensures [progress] imp(old(S.ch) == '!' || isLetterS(old(S.ch)), left(S) < old(left(S)))
+//@   ensures [wf] scanStep(S, old(left(S)), old(S.pos.Offset))
+//@   assigns S.pos, S.offset, S.ch, S.ErrorCount
+//@   loop 1
+//@     invariant [wf] scanStep(S, old(left(S)), old(S.pos.Offset))
+//@     invariant [progress] (S.ch == old(S.ch) && left(S) == old(left(S))) || left(S) < old(left(S))
+//@     decreases left(S)
+//@
+//@ specfun UIsLetter(r int) bool
+//@ specfun UIsDigit(r int) bool
+//@ spec isLetterS(ch int) bool = ('a' <= ch && ch <= 'z') || ('A' <= ch && ch <= 'Z') || (ch >= 0x80 && UIsLetter(ch)) || ch == '_'
+//@ spec isDigitS(ch int) bool = ('0' <= ch && ch <= '9') || (ch >= 0x80 && UIsDigit(ch))
+//@ # C09: one call of Scan terminates (every loop of its helpers has a variant, the restart after a comment has one)
+//@ # and consumes at least one character unless the end of the input has been reached before the call
+//@ func (*Scanner).Scan
+//@   prop C09
+//@   requires [wf] scanWF(S) && S.tokenMap != nil
+//@   ensures [wf] scanStep(S, old(left(S)), old(S.pos.Offset)) && S.tokenMap == old(S.tokenMap)
+//@   ensures [progress] imp(old(left(S)) > 0, left(S) < old(left(S)))
+//@   assigns S.pos, S.offset, S.ch, S.ErrorCount
+//@   restart_decreases left(S)
+//@
+//@ func (*Scanner).Init
+//@   prop C09
+//@   requires [S] S != nil
+//@   ensures [wf] scanWF(S) && S.tokenMap == tokenMap && S.src == src
+//@   assigns S.src, S.tokenMap, S.pos, S.offset, S.ch, S.ErrorCount
+//@
+//@ func isLetter
+//@   prop C09
+//@   ensures [fun] result == isLetterS(ch)
+//@   assigns nothing
+//@ func isDigit
+//@   prop C09
+//@   ensures [fun] result == isDigitS(ch)
+//@   assigns nothing
+//@ func digitVal
+//@   prop C09
+//@   ensures [range] 0 <= result && result <= 16
+//@   assigns nothing
+//@ func charString
+//@   trusted
+//@   assigns nothing
+//@ package token
+//@ func token.(*TokenMap).Type
+//@   trusted
+//@   assigns nothing
+//@ func token.NewToken
+//@   trusted
+//@   assigns nothing
+//@ package unicode
+//@ func unicode.IsLetter
+//@   trusted
+//@   ensures [fun] result == UIsLetter(r)
+//@   assigns nothing
+//@ func unicode.IsDigit
+//@   trusted
+//@   ensures [fun] result == UIsDigit(r)
+//@   assigns nothing
+//@ func unicode.IsUpper
+//@   trusted
+//@   assigns nothing
+//@ package bytes
+//@ func bytes.HasPrefix
+//@   trusted
+//@   assigns nothing
+//@ func bytes.Index
+//@   trusted
+//@   ensures [range] -1 <= result && result < len(s)
+//@   assigns nothing
+//@ func bytes.Equal
+//@   trusted
+//@   assigns nothing
+//@ package strconv
+//@ func strconv.Atoi
+//@   trusted
+//@   assigns nothing
